@@ -24,6 +24,13 @@ pub fn acc_of(g: i32, ref_idx: i32, vol_ref: u32, max_acc: u32) -> u32 {
 
 /// total rate for an accumulator value: static + min(ceil(cf * (acc * group size)^2 / 10^13), 10^5), capped at 10^5
 pub fn rate_of(acc: u32, k: &AfConstantsD, static_rate: u16) -> u32 {
+    // exact in u128 whenever the product fits (always for valid constants: 2^17 * 2^64); big integers otherwise
+    let crossed = acc as u128 * k.tick_group_size as u128;
+    if let Some(num) = crossed.checked_mul(crossed).and_then(|x| x.checked_mul(k.adaptive_fee_control_factor as u128)) {
+        let q = num / 10_000_000_000_000u128 + (num % 10_000_000_000_000u128 != 0) as u128;
+        let adaptive = q.min(HARD_LIMIT as u128) as u32;
+        return (static_rate as u32 + adaptive).min(HARD_LIMIT);
+    }
     let crossed = BigUint::from(acc) * BigUint::from(k.tick_group_size);
     let num = BigUint::from(k.adaptive_fee_control_factor) * &crossed * &crossed;
     let den = BigUint::from(10_000_000_000_000u64);
@@ -327,6 +334,204 @@ pub fn adaptive_case() -> BoxedStrategy<SimCase> {
 }
 
 // ---------------------------------------------------------------------------------------------------
+// function level: the rate function over ALL valid constants and all stored variable states
+
+#[derive(Clone, Debug, Serialize, Deserialize, Hash)]
+pub struct RateCase {
+    pub tick_spacing: u16,
+    pub constants: AfConstants,
+    pub static_rate: u16,
+    pub current_tick: i32,
+    /// stored reference group = current group + this
+    pub reference_group_delta: i32,
+    pub volatility_accumulator: u32,
+    pub volatility_reference: u32,
+    /// last_major_swap_timestamp - last_reference_update_timestamp
+    pub major_minus_reference: i32,
+    pub dt: u32,
+    pub a_to_b: bool,
+    pub advances: u8,
+}
+
+pub fn check_rate(c: &RateCase, l: &mut Local) -> Result<(), String> {
+    use whirlpool::manager::fee_rate_manager::FeeRateManager;
+    use whirlpool::state::{AdaptiveFeeConstants, AdaptiveFeeInfo, AdaptiveFeeVariables};
+    let k = &c.constants;
+    if !super::c20::constants_valid(c.tick_spacing, k) {
+        l.count("constants_invalid_skipped");
+        return Ok(());
+    }
+    let gs = k.tick_group_size as i32;
+    let cur_tick = c.current_tick.clamp(-443636, 443636);
+    let cur_group = cur_tick.div_euclid(gs);
+    let (gmin, gmax) = ((-443636i32).div_euclid(gs), 443636i32.div_euclid(gs));
+    let ref_group = (cur_group as i64 + c.reference_group_delta as i64).clamp(gmin as i64, gmax as i64) as i32;
+    let acc0 = c.volatility_accumulator.min(k.max_volatility_accumulator);
+    let ref0 = c.volatility_reference.min(acc0);
+    let t0: u64 = 1_700_000_000;
+    let last_ref = t0;
+    let last_major = (t0 as i64 + c.major_minus_reference as i64) as u64;
+    let now = last_ref.max(last_major) + c.dt as u64;
+    let pre = AfVariablesD { last_reference_update_timestamp: last_ref, last_major_swap_timestamp: last_major, volatility_reference: ref0, tick_group_index_reference: ref_group, volatility_accumulator: acc0 };
+    let info = AdaptiveFeeInfo {
+        constants: AdaptiveFeeConstants {
+            filter_period: k.filter_period,
+            decay_period: k.decay_period,
+            reduction_factor: k.reduction_factor,
+            adaptive_fee_control_factor: k.adaptive_fee_control_factor,
+            max_volatility_accumulator: k.max_volatility_accumulator,
+            tick_group_size: k.tick_group_size,
+            major_swap_threshold_ticks: k.major_swap_threshold_ticks,
+            reserved: [0; 16],
+        },
+        variables: AdaptiveFeeVariables {
+            last_reference_update_timestamp: last_ref,
+            last_major_swap_timestamp: last_major,
+            volatility_reference: ref0,
+            tick_group_index_reference: ref_group,
+            volatility_accumulator: acc0,
+            reserved: [0; 16],
+        },
+    };
+    let kd = kd(&info.constants);
+    let info = Some(info);
+    let mut mgr = FeeRateManager::new(c.a_to_b, cur_tick, now, c.static_rate, &info).map_err(|e| format!("FeeRateManager::new refused a valid state: {e:?}"))?;
+    let (m_ref, m_vol, m_last) = model_reference(&pre, &kd, cur_group, now);
+    let mut g = cur_group;
+    let mut nontrivial = false;
+    for step in 0..=c.advances {
+        mgr.update_volatility_accumulator().map_err(|e| format!("update_volatility_accumulator failed: {e:?}"))?;
+        let got_rate = mgr.get_total_fee_rate();
+        let post = vd(&mgr.get_next_adaptive_fee_info().ok_or("adaptive manager returned no adaptive-fee state")?.variables);
+        if (post.tick_group_index_reference, post.volatility_reference, post.last_reference_update_timestamp) != (m_ref, m_vol, m_last) {
+            return Err(format!("reference after the update is ({}, {}, t={}) but the documented rule gives ({m_ref}, {m_vol}, t={m_last})", post.tick_group_index_reference, post.volatility_reference, post.last_reference_update_timestamp));
+        }
+        let a = acc_of(g, m_ref, m_vol, k.max_volatility_accumulator);
+        if post.volatility_accumulator != a {
+            return Err(format!("advance {step}: accumulator of group {g} is {} but min(ref_vol {m_vol} + |{m_ref} - {g}| * 10^4, {}) = {a}", post.volatility_accumulator, k.max_volatility_accumulator));
+        }
+        let want = rate_of(a, &kd, c.static_rate);
+        if got_rate != want {
+            return Err(format!("advance {step}: total rate {got_rate} for accumulator {a} (group size {}, control factor {}, static {}) but the schedule gives {want}", k.tick_group_size, k.adaptive_fee_control_factor, c.static_rate));
+        }
+        if got_rate < c.static_rate as u32 || got_rate > HARD_LIMIT {
+            return Err(format!("total rate {got_rate} outside [static {}, 100000]", c.static_rate));
+        }
+        // classes
+        let crossed = a as u128 * k.tick_group_size as u128;
+        let uncapped = (k.adaptive_fee_control_factor as u128 * crossed * crossed + 9_999_999_999_999) / 10_000_000_000_000;
+        let class = if k.adaptive_fee_control_factor == 0 {
+            "control_factor_zero"
+        } else if uncapped == 0 {
+            "adaptive_rate_zero"
+        } else if uncapped < HARD_LIMIT as u128 {
+            "adaptive_rate_below_cap"
+        } else if uncapped < (1u128 << 32) {
+            "adaptive_rate_capped"
+        } else {
+            "adaptive_rate_capped_uncapped_value_ge_2^32"
+        };
+        l.count(&format!("rate/{class}"));
+        if a == k.max_volatility_accumulator {
+            l.count("accumulator_saturated");
+        }
+        if uncapped > 0 {
+            nontrivial = true;
+        }
+        mgr.advance_tick_group();
+        g += if c.a_to_b { -1 } else { 1 };
+    }
+    if nontrivial {
+        l.nontrivial(crate::runner::hash_of(c));
+    }
+    if nontrivial {
+        l.sample(|| json!({"case": c, "model_reference": [m_ref, m_vol, m_last]}));
+    }
+    Ok(())
+}
+
+fn all_valid_constants(ts: u16) -> BoxedStrategy<AfConstants> {
+    let mut divisors: Vec<u16> = vec![];
+    let mut d = 1u32;
+    while d * d <= ts as u32 {
+        if ts as u32 % d == 0 {
+            divisors.push(d as u16);
+            divisors.push((ts as u32 / d) as u16);
+        }
+        d += 1;
+    }
+    divisors.sort();
+    divisors.dedup();
+    (
+        prop_oneof![3 => 1u16..=60, 1 => 1u16..=65_534],
+        any::<u16>(),
+        0u16..10_000,
+        prop_oneof![1 => Just(0u32), 6 => 1u32..100_000, 1 => Just(99_999u32)],
+        (any::<u32>(), 0u8..4),
+        prop::sample::select(divisors),
+        any::<u32>(),
+    )
+        .prop_map(move |(filter_period, extra, reduction_factor, adaptive_fee_control_factor, (macc, macc_kind), tick_group_size, major)| {
+            let cap = (u32::MAX as u64 / tick_group_size as u64) as u32;
+            let max_volatility_accumulator = match macc_kind {
+                0 => macc % (cap.min(3_000_000) + 1),
+                1 => cap - macc % (cap / 16 + 1),
+                _ => macc % cap.saturating_add(1).max(1),
+            };
+            let decay_period = (filter_period as u32 + 1 + extra as u32 % (65_535 - filter_period as u32)).min(65_535) as u16;
+            AfConstants {
+                filter_period,
+                decay_period,
+                reduction_factor,
+                adaptive_fee_control_factor,
+                max_volatility_accumulator,
+                tick_group_size,
+                major_swap_threshold_ticks: (1 + major % ((ts as u32 * 88).min(65_535))) as u16,
+            }
+        })
+        .boxed()
+}
+
+pub fn rate_case() -> BoxedStrategy<RateCase> {
+    prop_oneof![6 => prop::sample::select(vec![1u16, 2, 4, 8, 16, 64, 96, 128, 256, 512, 32896]), 1 => 1u16..=u16::MAX]
+        .prop_flat_map(|ts| (Just(ts), all_valid_constants(ts)))
+        .prop_flat_map(|(ts, k)| {
+            let (f, d) = (k.filter_period as u32, k.decay_period as u32);
+            let dt = prop_oneof![2 => Just(0u32), 1 => Just(1u32), 2 => Just(f.saturating_sub(1)), 2 => Just(f), 2 => Just(d.saturating_sub(1)), 2 => Just(d), 1 => Just(3600u32), 1 => Just(3601u32), 2 => 0u32..70_000];
+            let groups = (887_272 / k.tick_group_size as i32).max(1);
+            let delta = prop_oneof![2 => -3i32..=3, 2 => -400i32..=400, 3 => -groups..=groups];
+            let macc = k.max_volatility_accumulator;
+            (
+                Just(ts),
+                Just(k),
+                prop::sample::select(vec![0u16, 1, 100, 3000, 10_000, 60_000]),
+                prop_oneof![4 => -443_636i32..=443_636, 1 => -2000i32..2000],
+                delta,
+                prop_oneof![1 => Just(0u32), 1 => Just(macc), 3 => 0..=macc],
+                any::<u32>(),
+                prop_oneof![3 => -4000i32..=4000, 1 => Just(0i32)],
+                dt,
+                any::<bool>(),
+                0u8..4,
+            )
+        })
+        .prop_map(|(tick_spacing, constants, static_rate, current_tick, reference_group_delta, volatility_accumulator, vr, major_minus_reference, dt, a_to_b, advances)| RateCase {
+            tick_spacing,
+            constants,
+            static_rate,
+            current_tick,
+            reference_group_delta,
+            volatility_accumulator,
+            volatility_reference: if volatility_accumulator == 0 { 0 } else { vr % (volatility_accumulator + 1) },
+            major_minus_reference,
+            dt,
+            a_to_b,
+            advances,
+        })
+        .boxed()
+}
+
+// ---------------------------------------------------------------------------------------------------
 // instruction level: oracle account round trip and trade-enable time
 
 #[derive(Clone, Debug, Serialize, Deserialize, Hash)]
@@ -453,7 +658,10 @@ fn ix_case() -> BoxedStrategy<IxCase> {
 pub fn def() -> CheckDef {
     CheckDef {
         id: "C14",
-        rule: "function level: pools with generated VALID adaptive-fee constants (all of them varied), variable states reached only by sequences of the program's own swaps with \
+        rule: "rate_function: FeeRateManager::new / update_volatility_accumulator / get_total_fee_rate / advance_tick_group on ALL valid constants (tick spacings 1..=65535, \
+               every divisor as group size, accumulator maxima up to u32::MAX / group size, control factor 0..99999) and stored variable states satisfying the reachable-state \
+               invariant (reference <= accumulator <= maximum, reference group inside the tick range): reference == documented update, accumulator == min(ref + distance * 10^4, max), \
+               total rate == schedule, in [static, 10^5]; classes by uncapped rate (0, < cap, capped, >= 2^32).  Sequence level: pools with generated VALID adaptive-fee constants (all of them varied), variable states reached only by sequences of the program's own swaps with \
                generated non-decreasing timestamps (elapsed classes 0, 1, filter-1, filter, decay-1, decay, 3600, 3601, random), swaps inside / entering / leaving / beyond the \
                saturation range, across zero-liquidity gaps, both directions and modes.  Per traced step with traded amount and L>0: every tick group intersecting the step's \
                open price interval must have reference rate == the step's rate (independent reference: accumulator = min(ref_vol + |ref_idx - g| * 10^4, max), rate = min(static + \
@@ -462,8 +670,9 @@ pub fn def() -> CheckDef {
                zero_control_factor: the same generated state swapped as cf=0 adaptive pool and as static pool must agree on amounts, fees, growth, price.  instruction \
                level: oracle account round trip checked with the same oracle, swaps refused before the trade-enable time and allowed from it.  Non-trivial = cf>0 and >=3 \
                tick groups traversed with liquidity.",
-        assumptions: vec!["H2 step trace (required for the per-step rate)", "adaptive variable states are never fabricated: they are reached through the program's own swaps"],
+        assumptions: vec!["H2 step trace (required for the per-step rate)", "sequence sub-checks never fabricate adaptive variable states (they are reached through the program's own swaps); rate_function fabricates them within the reachable-state invariant"],
         subs: vec![
+            sub("rate_function", 24_000_000, 1_000_000_000, rate_case, |c: &RateCase, l: &mut Local| check_rate(c, l)),
             sub("schedule", 1_500_000, 50_000_000, adaptive_case, |c: &SimCase, l: &mut Local| check_schedule(c, l)),
             sub("zero_control_factor", 600_000, 10_000_000, adaptive_case, |c: &SimCase, l: &mut Local| check_zero_cf(c, l)),
             sub("oracle_account_and_trade_enable", 20_000, 300_000, ix_case, |c: &IxCase, l: &mut Local| check_ix(c, l)),
